@@ -149,3 +149,23 @@ Proof.
   - apply Nat.eqb_eq in Z. assert (H0 : hlen v = 0) by lia. rewrite H0. reflexivity.
   - rewrite reg_bytes_last. cbn [fresh_region r_bytes skipn]. rewrite Hb, Hlen, firstn_firstn, Nat.min_id. reflexivity.
 Qed.
+
+(* ------------------------------------------------------------------ memory referenced by a live exported structure / imported region never changes *)
+Lemma node_held_immutable ops p id n r :
+  nth_error (nodes (run ops init)) id = Some n -> In r (node_refs n) ->
+  reg_bytes (step (run ops init) p) r = reg_bytes (run ops init) r.
+Proof.
+  intros Hn Hr. set (s := run ops init) in *.
+  destruct (list_eq_dec Z.eq_dec (reg_bytes (step s p) r) (reg_bytes s r)) as [E|E]; [exact E|exfalso].
+  destruct (keeps_alive_l ops id n r Hn Hr) as (_ & m & Hm & _). fold s in Hm.
+  assert (Hlt : r < length (nodes s)) by (apply nth_error_Some; congruence).
+  destruct (mutation_requires_unique_r ops p r Hlt E) as [_ Hc]. fold s in Hc.
+  (* the node's own reference is not one of the acting object's *)
+  assert (Hnode : 0 < count_occ Nat.eq_dec (flat_map node_refs (nodes s)) r).
+  { apply (count_occ_In Nat.eq_dec). exact (in_flat_map_nth node_refs (nodes s) id n r Hn Hr). }
+  assert (Hslots : count_occ Nat.eq_dec (acts s (o_a p)) r <= count_occ Nat.eq_dec (flat_map slot_refs (slots s)) r).
+  { unfold acts. destruct (nth_error (slots s) (o_a p)) as [so|] eqn:Es.
+    - rewrite (nth_error_nth _ _ _ Es). exact (count_flat_map_nth slot_refs (slots s) (o_a p) so r Es).
+    - rewrite nth_overflow by (apply nth_error_None; exact Es). cbn [slot_refs count_occ]. lia. }
+  unfold cnt, all_refs in Hc. rewrite count_occ_app in Hc. lia.
+Qed.
